@@ -98,18 +98,23 @@ def _integer_lex(text):
     return orc.result()
 
 
-BOOL_LITERALS = ('true', 'false', '1', '0')
+BOOL_PROBES = ('TRUE', 'True', 'FALSE', 'yes', 'on', '01', '1.0', 'truee', 'tru', 't', ' true', 'false ', '\ttrue\n', 'true', '0')
 
 
-def boolean_lex(s: str) -> str:
+def boolean_lex(probe: int, s: str) -> str:
     """
     BooleanConverter.to_py(s) returns  =>  s (without surrounding XML whitespace) is one of true/false/1/0 and the result is
     the value it denotes; to_xml gives a literal of that value; a literal is not rejected.
+    s is fully symbolic (probe == 0) or one of the fixed spellings in BOOL_PROBES chosen by the selector (case variants are
+    hard to reach through str.lower() on a symbolic str).
+    pre: 0 <= probe <= 15
     pre: len(s) <= 5
     post: __return__ == 'ok'
     """
     orc = Oracle()
     try:
+        if probe != 0:
+            s = pick(probe - 1, BOOL_PROBES)
         c = s.strip(' \t\n\r')
         lexical = c == 'true' or c == 'false' or c == '1' or c == '0'
         try:
